@@ -260,8 +260,15 @@ def conv_obligation(ck, alpha, res, obn, base, literal, routine, clause):
         if not bad.is_empty():
             w = bad.shortest()
             rep = ck.native(routine, {"tokens": [w.decode("latin-1")]})
+            raised = (rep.get("raised") or [None])[0]
+            if not raised:
+                # the real function handles the token without an escaping exception: the site model lost a gate (an opaque branch),
+                # which is a limit of the model, not a verdict about the code
+                ck.ob(obn, "undecided", backend="relang-dfa", secs=time.time() - t0, clause=clause,
+                      detail={"reason": "model says token %r reaches int(x, %d) outside the literal syntax, the real code does not raise on it" % (w, base), "native": rep})
+                return
             ck.fail(obn, "witness:" + w.hex(), "raw token %r reaches int(x, %d) with an argument outside int()'s literal syntax" % (w, base),
-                    replay={"witness": b2s(w), "native": rep}, reproduced=bool((rep.get("raised") or [None])[0]))
+                    replay={"witness": b2s(w), "native": rep}, reproduced=True)
             ck.ob(obn, "violated", backend="relang-dfa", secs=time.time() - t0, clause=clause)
             return
     ck.ob(obn, "discharged", backend="relang-dfa", secs=time.time() - t0, clause=clause, detail={"call_sites_paths": len(convs)})
